@@ -180,6 +180,31 @@ func c06Decode(r *core.Run, regime, kind string, bc *blockCase, data []byte, dec
 		}); p != "" {
 			r.Violation("panic:consistency-walk", p, cs())
 		}
+		// targets stay bound for the following blocks: a zero-row block of the same schema, spliced
+		// after the accepted one, must leave every column with the row count of *that* block
+		if decoder != "auto" && dst != nil && blk.Rows > 0 && blk.Columns > 0 && regime == "flood" && kind != "type-name" && len(data)%3 == 0 {
+			hdr := &ref.Block{Info: ref.BlockInfo{Bucket: -1}}
+			switch bc.Order {
+			case 0:
+				hdr.Cols = []ref.Col{{Name: "v", Type: bc.TS}, {Name: "i", Type: "UInt32"}}
+			case 1:
+				hdr.Cols = []ref.Col{{Name: "i", Type: "UInt32"}, {Name: "v", Type: bc.TS}}
+			default:
+				hdr.Cols = []ref.Col{{Name: "v", Type: bc.TS}}
+			}
+			var w0 ref.W
+			if ref.EncodeBlock(&w0, bc.Rev, hdr) == nil {
+				var blk0 proto.Block
+				var err0 error
+				r.Eval()
+				if p := core.Recover(func() { err0 = blk0.DecodeBlock(proto.NewReader(bytes.NewReader(w0.B)), bc.Rev, target) }); p != "" {
+					r.Violation("panic:zero-row-block-after-accepted-block:"+panicSite(p), p, cs())
+				} else if err0 == nil && dst.Col().Rows() != 0 {
+					r.Violation("inconsistent:rows:zero-row-block-after-accepted-block", fmt.Sprintf("%s/%s decoding %s: a zero-row block decoded into the same targets without error, the column still reports %d rows", regime, kind, bc.TS, dst.Col().Rows()), cs())
+				}
+				r.Count("zero_row_followups", 1)
+			}
+		}
 	}
 	return "ok"
 }
